@@ -897,7 +897,8 @@ pub fn paint_file_path_with_line_number(
     } {
         Some(absolute_path) => hyperlinks::format_osc8_file_hyperlink(
             absolute_path,
-            line_number,
+            // (a 0 that is not shown stands for "no line": the header of a file's grep hits)
+            line_number.filter(|n| *n > 0 || line_number_style.is_some()),
             &file_with_line_number,
             config,
         )
